@@ -12,6 +12,7 @@ pub mod c12;
 pub mod c13;
 pub mod c14;
 pub mod c15;
+pub mod c19;
 pub mod c20;
 pub mod c16;
 pub mod oscp;
@@ -27,7 +28,7 @@ pub struct PropSpec {
 }
 
 pub fn all() -> Vec<PropSpec> {
-    vec![c01::spec(), oscp::spec_c02(), oscp::spec_c03(), oscp::spec_c04(), oscp::spec_c05(), oscp::spec_c06(), c07::spec(), c08::spec(), c09::spec(), c10::spec(), c11::spec(), c12::spec(), c13::spec(), c14::spec(), c15::spec(), c16::spec(), oscp::spec_c17(), oscp::spec_c18(), c20::spec()]
+    vec![c01::spec(), oscp::spec_c02(), oscp::spec_c03(), oscp::spec_c04(), oscp::spec_c05(), oscp::spec_c06(), c07::spec(), c08::spec(), c09::spec(), c10::spec(), c11::spec(), c12::spec(), c13::spec(), c14::spec(), c15::spec(), c16::spec(), oscp::spec_c17(), oscp::spec_c18(), c19::spec(), c20::spec()]
 }
 
 pub fn get(id: &str) -> Option<PropSpec> {
